@@ -3,6 +3,8 @@
 package c05
 
 import (
+	"fmt"
+	"strings"
 	"testing"
 
 	"github.com/yuin/goldmark/text"
@@ -111,6 +113,50 @@ func TestExhaustive(t *testing.T) {
 	}
 	kit.R.Note("exhaustive", true)
 	kit.R.Note("exhaustive_what", "all strings of length <= "+string(rune('0'+L))+" over a 23-symbol Markdown-significant alphabet x 4 configurations")
+}
+
+// TestExhaustiveLines enumerates line-structured documents: all pairs of
+// line atoms (indentation x content) in the quick tier plus all triples over
+// a reduced atom set; all triples over the full set in the thorough tier.
+func TestExhaustiveLines(t *testing.T) {
+	idx := 0
+	count := 0
+	emit := func(lines ...string) {
+		idx++
+		if !kit.Mine(idx) {
+			return
+		}
+		src := []byte(strings.Join(lines, "\n"))
+		for _, cfg := range exhConfigs[:2] {
+			run(t, cfg, src, "exhaustive-lines")
+			count++
+		}
+	}
+	full := gen.LineAtoms(true)
+	if kit.Thorough() {
+		for _, a := range full {
+			for _, b := range full {
+				for _, c := range full {
+					emit(a, b, c)
+				}
+			}
+		}
+	} else {
+		for _, a := range full {
+			for _, b := range full {
+				emit(a, b)
+			}
+		}
+		small := gen.LineAtoms(false)
+		for _, a := range small {
+			for _, b := range small {
+				for _, c := range small {
+					emit(a, b, c)
+				}
+			}
+		}
+	}
+	kit.R.Note("exhaustive_lines", fmt.Sprintf("line-structured documents: %d atoms; quick = all pairs + all triples over %d atoms, thorough = all triples", len(full), len(gen.LineAtoms(false))))
 }
 
 func FuzzAST(f *testing.F) {
